@@ -33,6 +33,9 @@ def floors(tier):
             "set:hashseeds": 5, "histories_with_rejected_update": 100, "histories_with_caller_mutation": 100}
 
 
+ELS_SAT = ["S", "P", "N", "C", "O", "Cl", "B", "Fe", "Xe", "Zr", "Si", "I", "N+1", "S+1", "P-1", "O+1", "C-1", "Sn", "As", "Se"]
+
+
 def call(sf, kind, x, flags):
     fn = (lambda: sf.decoder(x, **flags)) if kind == "d" else (lambda: sf.encoder(x, **flags))
     r = call_guard(fn, expected=(sf.DecoderError, sf.EncoderError))
@@ -69,10 +72,10 @@ def run(ctx):
             flags = set()
             for step in range(rng.randint(5, 60)):
                 pre = cache_probe()
-                n_before = (ctx.counters["ops.set_custom"] + ctx.counters["ops.set_preset"], ctx.counters["ops.set_invalid"],
+                n_before = (ctx.counters["ops.set_custom"] + ctx.counters["ops.set_preset"] + ctx.counters["ops.set_neighbour"], ctx.counters["ops.set_invalid"],
                             sum(v for k, v in ctx.counters.items() if k.startswith("mutations.")))
                 M.step(rng, pool_d, pool_e)
-                n_after = (ctx.counters["ops.set_custom"] + ctx.counters["ops.set_preset"], ctx.counters["ops.set_invalid"],
+                n_after = (ctx.counters["ops.set_custom"] + ctx.counters["ops.set_preset"] + ctx.counters["ops.set_neighbour"], ctx.counters["ops.set_invalid"],
                            sum(v for k, v in ctx.counters.items() if k.startswith("mutations.")))
                 if n_after[0] > n_before[0]:
                     nsets += 1
@@ -92,7 +95,10 @@ def run(ctx):
             if "mut" in flags:
                 ctx.count("histories_with_caller_mutation")
             table = sf.get_semantic_constraints()
-            probes = [["d", rng.choice(pool_d), {"attribute": rng.random() < 0.2}] for _ in range(6)] + \
+            sat = []
+            for k in rng.sample(ELS_SAT, 3):
+                sat.append(["d", "[%s]" % k + "[Branch1][C][F]" * 7 + "[=O]", {}])
+            probes = sat + [["d", rng.choice(pool_d), {"attribute": rng.random() < 0.2}] for _ in range(6)] + \
                      [["e", rng.choice(pool_e), {"strict": False, "attribute": rng.random() < 0.2}] for _ in range(3)]
             res = [call(sf, k, x, fl) for k, x, fl in probes]
             again = [call(sf, k, x, fl) for k, x, fl in probes]
